@@ -993,6 +993,7 @@ func c16GenConc(rng *rand.Rand, tier string, emit func(string)) {
 		n      int
 		g, r   int
 		paired bool
+		bare   bool // records without attributes (cheap calls: many more of them overlap)
 	}
 	sel := []string{"s", "I", "idl", "l", "L", "c", "C", "A", "D"}
 	edits := []string{"setid", "ren", "del", "len", "keep", "clear"}
@@ -1005,6 +1006,7 @@ func c16GenConc(rng *rand.Rand, tier string, emit func(string)) {
 		{op: "grep", kinds: []string{"ap"}, some: []string{"r", "i", "rank", "A", "a"}, nsome: 1, n: 90, g: 8, r: 15, paired: true},
 		{op: "annot", kinds: []string{"a", "tag", "cut"}, some: edits, nsome: 2, n: 140, g: 8, r: 20},
 		{op: "annot", kinds: []string{"pat", "aho"}, some: taxw, nsome: 2, n: 110, g: 8, r: 12},
+		{op: "annot", kinds: []string{"cut"}, some: []string{"len", "l"}, nsome: 1, n: 200, g: 8, r: 250, bare: true},
 		{op: "class", n: 200, g: 8, r: 30},
 	}
 	if tier == "thorough" {
@@ -1019,6 +1021,7 @@ func c16GenConc(rng *rand.Rand, tier string, emit func(string)) {
 			{op: "grep", kinds: []string{"r"}, some: []string{"i", "rank", "idl", "I"}, nsome: 2, n: 250, g: 16, r: 30},
 			{op: "annot", kinds: []string{"a", "tag", "cut"}, some: edits, nsome: 2, n: 250, g: 16, r: 30},
 			{op: "annot", kinds: []string{"cut"}, some: []string{"len", "tag", "p", "l"}, nsome: 2, n: 250, g: 16, r: 30},
+			{op: "annot", kinds: []string{"cut"}, some: []string{"len", "l"}, nsome: 1, n: 300, g: 16, r: 400, bare: true},
 			{op: "annot", kinds: []string{"tag", "setid"}, some: append([]string{"p", "c"}, edits...), nsome: 3, n: 250, g: 12, r: 30},
 			{op: "annot", kinds: []string{"pat", "aho"}, some: taxw, nsome: 2, n: 220, g: 16, r: 20},
 			{op: "annot", kinds: []string{"pat"}, some: []string{"cut", "len", "c", "a", "keep"}, nsome: 2, n: 220, g: 16, r: 20},
@@ -1068,13 +1071,19 @@ func c16GenConc(rng *rand.Rand, tier string, emit func(string)) {
 				return false
 			}
 			recs := c16ConcRecs(rng, s.n, s.paired, has("pat") || has("ap"), has("lca"))
+			if s.bare {
+				for j := range recs {
+					recs[j].r.attrs = map[string]c16Val{}
+				}
+			}
 			lo, hi := 20, 80
 			if s.op == "annot" {
 				lo, hi = 35, 100
 			}
-			var toks []string
+			var toks, best []string
+			bestDist := 1000
 			for try := 0; try < 12; try++ {
-				toks = toks[:0]
+				toks = nil
 				if s.paired {
 					toks = append(toks, "paired", "pm="+hs(c16Modes[rng.Intn(6)]))
 				}
@@ -1084,10 +1093,18 @@ func c16GenConc(rng *rand.Rand, tier string, emit func(string)) {
 				if rng.Intn(3) == 0 && !has("long") {
 					toks = append(toks, "long")
 				}
-				if a := accepted(toks, recs); a >= lo && a <= hi {
+				a := accepted(toks, recs)
+				if a >= lo && a <= hi {
 					stat("gen:conc-balanced")
+					best = toks
 					break
 				}
+				if d := a - (lo+hi)/2; a >= 0 && d*d < bestDist*bestDist { // no balanced draw: the closest one
+					best, bestDist = toks, d
+				}
+			}
+			if best != nil {
+				toks = best
 			}
 			l = fmt.Sprintf("conc %d %d %s", s.g, s.r, strings.TrimSpace(s.op+" "+strings.Join(toks, " "))+" | "+c16ShowRecs(recs))
 		}
@@ -1097,7 +1114,7 @@ func c16GenConc(rng *rand.Rand, tier string, emit func(string)) {
 	}
 	if tier == "thorough" && c16FirstSeed() {
 		// under the race detector (slow: few goroutines and rounds)
-		for _, i := range []int{0, 2, 5, 8, 11, 14} {
+		for _, i := range []int{0, 2, 5, 8, 10, 12, 15} {
 			f := strings.SplitN(lines[i], " ", 4)
 			emit("race conc 6 3 " + f[3])
 			stat("gen:conc-race")
